@@ -3,6 +3,7 @@ import Model.T4Spec
 import Proofs.T4SpecTie
 import Proofs.T4SpecFill
 import Proofs.T4SpecGrid
+import Proofs.T4SpecGridReturns
 import Mathlib.Data.List.Pairwise
 import Mathlib.Tactic.Linarith
 /-!
@@ -423,6 +424,26 @@ theorem cursors_get (G : Grid XReal) (hp : 0 < G.nphi) (it im ip : Nat) (h1 : it
   simp only [Option.bind_some]
   rw [List.getElem?_map, List.getElem?_range h3]
   rfl
+
+/-- **`fill_arrays_and_bins` returns on a printed grid** (first half of the hypothesis of `grid_scores_attached`): when no
+block has more rows than the first one and the rows of the first block continue each other (the lower bound of a group is
+the upper bound of the group printed before it — what `_check_bins` demands), reading the blocks raises neither the
+`bins` nor the `index` error: every block but the first is read under indices other than (0, 0, 0), in range.  Not yet
+proved: that the last edges are then found (`add_last_bins` needs the numbers of mu and phi edges collected, `nmu` and
+`nphi` on a grid), which is the other half of "`convert` returns". -/
+theorem grid_fill_returns (G : Grid XReal) (ht : 0 < G.nt) (hm : 0 < G.nmu) (hp : 0 < G.nphi)
+    (hrows : ∀ it im ip, it < G.nt → im < G.nmu → ip < G.nphi → (G.rows it im ip).length ≤ (G.rows 0 0 0).length)
+    (hc : RowsContig (G.rows 0 0 0) 0 (G.rows 0 0 0)) :
+    ∃ b, fill { ne := (G.rows 0 0 0).length, nt := G.nt, nmu := G.nmu, nphi := G.nphi } G.blocks = .ok b :=
+  fill_grid_returns G ht hm hp hrows hc
+
+/-- non-vacuity: two groups that continue each other satisfy `RowsContig` -/
+example : RowsContig [(⟨fin 1, fin 2, fin 7, fin 1, fin 0⟩ : Row XReal), ⟨fin 2, fin 3, fin 8, fin 1, fin 0⟩] 0
+    [⟨fin 1, fin 2, fin 7, fin 1, fin 0⟩, ⟨fin 2, fin 3, fin 8, fin 1, fin 0⟩] := by
+  intro k hk hne
+  have : k = 1 := by simp at hk; omega
+  subst this
+  simp [Num.beq, XReal.beq]
 
 /-- **a response printed over a full time x mu x phi grid**: when `convert` returns, it has found the three dimensions
 and the row printed for (group `ie`, time step `it`, mu zone `im`, phi zone `ip`) is the content of the cell at those
